@@ -426,7 +426,9 @@ class Lit(Node):
         if isinstance(v, (list, dict, set, bytearray)) or is_seq(v) or is_map(v):
             # unhashable / container values never equal a literal
             exact, loose = _lit_match(v, self.vals)
-            return Acc(v) if exact else Rej('not one of the literals')
+            if exact:
+                return Acc(v)
+            return Unspec('value == a literal of another type') if loose else Rej('not one of the literals')
         exact, loose = _lit_match(v, self.vals)
         if exact:
             return Acc(v)
